@@ -202,7 +202,7 @@ class Engine:
 				model_value = json.loads(model_answer[3:])
 				if 'ok' != status or decoded != model_value:
 					ctx.fail('corr', f'{net.name}.{type_name}: decode of {label} mutant differs (implementation {status})', dict(info, model=model_answer[:400], implementation=decoded))
-			elif 'ok' == status and 'err unsupported' != model_answer:
+			elif 'ok' == status and not model_answer.endswith('unsupported'):
 				ctx.fail('corr', f'{net.name}.{type_name}: implementation accepts a {label} mutant the model rejects ({model_answer})', dict(info, implementation=decoded))
 
 	def has_empty_self_tested_member(self, type_name, value):
@@ -289,11 +289,74 @@ class Engine:
 			for attribute in arrays:
 				if isinstance(getattr(other, attribute, None), list) and getattr(other, attribute):
 					ctx.fail('property', f'{net.name}.{type_name}: default-constructed instances share the array {attribute}', ident)
+			self.check_stale_arm(type_name, case, ident)
+			self.check_rekeyed_entries(type_name, case, ident)
 			ctx.count('object-histories')
 		except codec.Timeout:
 			ctx.count('history-timeouts')
 		except Exception as ex:  # pylint: disable=broad-except
 			ctx.fail('property', f'{net.name}.{type_name}: a history of harmless operations on a valid object raises {type(ex).__name__}: {ex}', ident)
+
+	def check_stale_arm(self, type_name, case, ident):
+		"""A conditional member whose condition does not hold is not part of the value: giving it a content (the other arm of a
+		union left set) must change neither the encoding nor the size nor what to_json / str show."""
+		ctx, net = self.ctx, self.net
+		typedef = net.types[type_name]
+		members = dict((name, item) for name, item in case['value']['f'])
+		for field in typedef['fields']:
+			cond = field['cond']
+			if cond is None or cond['viaSelf'] or field['name'] not in members or members[field['name']] is not None:
+				continue
+			if 'ref' != field['kind']['k']:
+				continue
+			discriminant = next(other for other in typedef['fields'] if other['name'] == cond['field'])
+			if discriminant['kind']['k'] not in codec.CARRYING:
+				continue  # a computed discriminant (@sizeref of this very member) follows the member: no arm can be stale
+			fresh = net.to_obj(type_name, case['value'])
+			before = (bytes(fresh.serialize()), fresh.size, codec.dumps(fresh.to_json()) if hasattr(fresh, 'to_json') else None, str(fresh))
+			setattr(fresh, codec.fix_name(field['name']), net.to_obj(field['kind']['ty'], self.gen.value(field['kind']['ty'], 2)))
+			after = (bytes(fresh.serialize()), fresh.size, codec.dumps(fresh.to_json()) if hasattr(fresh, 'to_json') else None, str(fresh))
+			ctx.count('history:stale-arm')
+			for what, left, right in zip(('encoding', 'size', 'to_json', 'str'), before, after):
+				if left != right:
+					ctx.fail('property', (
+						f'{net.name}.{type_name}: the {what} changes when the member {field["name"]}, whose condition does not hold, is given a content '
+						'(the object no longer shows / encodes the value its discriminant selects)'), dict(ident, member=field['name'], before=str(left)[:300], after=str(right)[:300]))
+
+	def check_rekeyed_entries(self, type_name, case, ident):
+		"""Entries of a keyed array are re-keyed IN PLACE after the object was decoded / sorted / encoded once (nothing remembered from
+		the first evaluation may survive): the out-of-order array must be refused, sort() must restore an order the encoder accepts,
+		and the bytes must decode to what the object now holds."""
+		from . import c12
+		ctx, net = self.ctx, self.net
+		typedef = net.types[type_name]
+		for field in typedef['fields']:
+			if 'array' != field['kind']['k'] or not field['kind']['sortKey']:
+				continue
+			attribute = codec.fix_name(field['name'])
+			obj = codec.guarded(net.cls(type_name).deserialize, case['data'])
+			entries = getattr(obj, attribute, None)
+			if not isinstance(entries, list) or len(entries) < 2:
+				continue
+			obj.sort()
+			bytes(obj.serialize())
+			c12.KeyedArrayCheck(ctx, net, self, type_name, field).swap_keys(entries[0], entries[-1])
+			ctx.count('history:rekey-after-decode')
+			try:
+				bytes(obj.serialize())
+				ctx.fail('property', f'{net.name}.{type_name}: serialize() accepts the array {field["name"]} after two of its entries exchanged their keys in place', dict(ident, member=field['name']))
+				continue
+			except Exception:  # pylint: disable=broad-except
+				pass
+			obj.sort()
+			try:
+				again = bytes(obj.serialize())
+			except Exception as ex:  # pylint: disable=broad-except
+				ctx.fail('property', f'{net.name}.{type_name}: after re-keying entries of {field["name"]} in place, sort() leaves an order serialize() refuses ({type(ex).__name__})', dict(ident, member=field['name']))
+				continue
+			status, decoded, _ = self.impl_decode(type_name, again)
+			if 'ok' != status or decoded != net.to_wire(type_name, obj):
+				ctx.fail('property', f'{net.name}.{type_name}: the encoding of the re-keyed and re-sorted value does not decode to it ({status})', dict(ident, member=field['name'], bytes=again.hex().upper()))
 
 	def reorder_mutants(self, type_name, obj, data, spans):
 		"""Encodings in which the elements of one array member are rearranged (two neighbours swapped - the first pair, a later
